@@ -185,6 +185,7 @@ type vfNet struct {
 	dropPct int
 	dupPct  int
 	offered map[int]map[uint64]int
+	blockOrder map[uint64][]string
 	parts   [][]int // current partition (groups of validator indices); nil = none
 }
 
@@ -451,13 +452,10 @@ func (net *vfNet) signVote(idx int, h uint64, r uint32, typ kproto.SignedMsgType
 
 // knownBlocks returns the block ids at height h known to the adversary (seen in proposals).
 func (net *vfNet) knownIDs(h uint64) []types.BlockID {
+	// in the order the adversary learnt them: block hashes depend on wall-clock vote time stamps,
+	// so any order derived from the hashes would make a (seed, case) pair irreproducible
 	var ids []types.BlockID
-	keys := make([]string, 0)
-	for k := range net.blocks[h] {
-		keys = append(keys, k)
-	}
-	sort.Strings(keys)
-	for _, k := range keys {
+	for _, k := range net.blockOrder[h] {
 		b := net.blocks[h][k]
 		ids = append(ids, types.BlockID{Hash: b.block.Hash(), PartsHeader: b.parts.Header()})
 	}
@@ -469,7 +467,14 @@ func (net *vfNet) learnBlock(h uint64, blk *types.Block, ps *types.PartSet) type
 	if net.blocks[h] == nil {
 		net.blocks[h] = map[string]*vfBlk{}
 	}
-	net.blocks[h][vfBlockKey(id)] = &vfBlk{blk, ps}
+	k := vfBlockKey(id)
+	if _, ok := net.blocks[h][k]; !ok {
+		if net.blockOrder == nil {
+			net.blockOrder = map[uint64][]string{}
+		}
+		net.blockOrder[h] = append(net.blockOrder[h], k)
+	}
+	net.blocks[h][k] = &vfBlk{blk, ps}
 	return id
 }
 
